@@ -9,6 +9,7 @@ import (
 	"context"
 	"fmt"
 	"net"
+	"strings"
 	"sync"
 	"sync/atomic"
 	"testing"
@@ -152,6 +153,169 @@ func TestVerifC09Shutdown(t *testing.T) {
 			rec.Distinct("nontrivial", scenario, rep)
 			if rec.WantSample() {
 				rec.Sample(map[string]interface{}{"scenario": scenario, "returned": ok, "messages_sent_before_stop": sent})
+			}
+		}
+	}
+}
+
+// TestVerifC09SharePeer: registrations from the local detector are shared with peer stations over HTTP.  A peer that is
+// down, refuses, answers slowly or accepts the connection and never answers must not stall ingest ("overload and
+// shutdown do not stall the pipeline") and must not keep a stop request from completing.
+func TestVerifC09SharePeer(t *testing.T) {
+	rec := kit.NewRec("C09", "sharepeer")
+	defer rec.Close()
+	rng := kit.Rand("c09-sharepeer")
+	secret := func() []byte { b := make([]byte, 32); rng.Read(b); return b }
+	for rep := 0; rep < kit.Tier(1, 6); rep++ {
+		for _, peer := range []string{"hung", "refusing", "answers-500", "slow-200"} {
+			for _, workers := range []int{4, 12} {
+				label := fmt.Sprintf("peer=%s workers=%d rep=%d", peer, workers, rep)
+				rec.Case(label)
+				e := c09Setup(t)
+				e.rm.IngestWorkerCount = workers
+				e.rm.EnableShareOverAPI = true
+				var accepted atomic.Int64
+				var held []net.Conn
+				var heldMu sync.Mutex
+				ln, err := net.Listen("tcp", "127.0.0.1:0")
+				if err != nil {
+					t.Fatal(err)
+				}
+				e.rm.PreshareEndpoint = "http://" + ln.Addr().String() + "/register"
+				switch peer {
+				case "refusing":
+					ln.Close()
+				default:
+					go func() {
+						for {
+							c, err := ln.Accept()
+							if err != nil {
+								return
+							}
+							accepted.Add(1)
+							switch peer {
+							case "hung": // takes the request and never answers
+								heldMu.Lock()
+								held = append(held, c)
+								heldMu.Unlock()
+							case "answers-500":
+								go func() {
+									buf := make([]byte, 65536)
+									c.Read(buf)
+									c.Write([]byte("HTTP/1.1 500 Internal Server Error\r\nContent-Length: 0\r\nConnection: close\r\n\r\n"))
+									c.Close()
+								}()
+							case "slow-200":
+								go func() {
+									buf := make([]byte, 65536)
+									c.Read(buf)
+									time.Sleep(300 * time.Millisecond)
+									c.Write([]byte("HTTP/1.1 200 OK\r\nContent-Length: 0\r\nConnection: close\r\n\r\n"))
+									c.Close()
+								}()
+							}
+						}
+					}()
+				}
+				ctx, cancel := context.WithCancel(context.Background())
+				regChan := make(chan interface{}) // unbuffered: a send completes only when the distributor received
+				var wg sync.WaitGroup
+				wg.Add(1)
+				done := make(chan struct{})
+				go func() { e.rm.HandleRegUpdates(ctx, regChan, &wg); close(done) }()
+				// all workers up and parked at the (unbuffered, for fewer than 10 workers) job channel before anything is offered
+				kitWait(20*time.Second, func() bool {
+					gs := kit.InFunc(kit.Stacks(), "lib.(*RegistrationManager).startIngestThread")
+					if len(gs) != workers {
+						return false
+					}
+					for _, g := range gs {
+						if !g.Blocked() {
+							return false
+						}
+					}
+					return true
+				})
+				// many more registrations than workers, one at a time: each must be validated before the next is offered,
+				// so nothing is dropped for lack of a free worker on a pipeline that works
+				n := workers*10 + 40
+				validated, stalledAt := 0, -1
+				for i := 0; i < n && stalledAt < 0; i++ {
+					sec := secret()
+					ph := c09Phantom(i)
+					select {
+					case regChan <- c09Message(sec, ph, 1+i%200, pb.RegistrationSource_Detector):
+					case <-time.After(30 * time.Second):
+						stalledAt = i
+						continue
+					}
+					probe := &DecoyRegistration{PhantomIp: ph, Keys: keysOf(sec), Transport: pb.TransportType_Min}
+					ok := kitWait(20*time.Second, func() bool {
+						r := e.rm.registeredDecoys.RegistrationExists(probe)
+						return r != nil && r.Valid
+					})
+					if !ok {
+						stalledAt = i
+					} else {
+						validated++
+					}
+				}
+				if stalledAt >= 0 {
+					// is every worker parked?  (stable on three scans: a stall, not slowness)
+					// a worker that waits for work is parked in startIngestThread itself; a stalled one is parked somewhere below it
+					stable := true
+					var states []string
+					raw := ""
+					for k := 0; k < 3 && stable; k++ {
+						gs := kit.InFunc(kit.Stacks(), "lib.(*RegistrationManager).startIngestThread")
+						states = states[:0]
+						busy := 0
+						for _, g := range gs {
+							at := ""
+							if len(g.Frames) > 0 {
+								at = g.Frames[0]
+							}
+							states = append(states, g.State+"@"+at)
+							if !g.Blocked() {
+								stable = false
+							}
+							if !strings.HasSuffix(at, "startIngestThread") {
+								busy++
+								raw = g.Raw
+							}
+						}
+						if len(gs) == 0 || busy != len(gs) {
+							stable = false // some worker is free (or none exists): whatever happened, ingest is not stalled
+						}
+						time.Sleep(500 * time.Millisecond)
+					}
+					if stable {
+						rec.Violation("sharepeer:"+peer+":ingest-stalled", "with a peer station that "+peer+" the ingest pipeline stopped validating registrations: every worker is parked",
+							map[string]interface{}{"case": label, "validated_before_the_stall": validated, "offered": stalledAt + 1, "worker_states": states, "a_worker": raw})
+					} else {
+						rec.Inconclusive("a registration was not validated within the bound but the workers are not all stuck below the ingest loop", map[string]interface{}{"case": label, "validated": validated, "workers": states})
+					}
+				}
+				cancel() // the stop request
+				ok := c09WaitReturn(rec, done, "sharepeer-"+peer)
+				if ok {
+					if left := kit.WaitNoGoroutineIn(20*time.Second, "lib.(*RegistrationManager).startIngestThread"); left != nil {
+						rec.Violation("shutdown:sharepeer-"+peer+":workers-left-behind", "ingest workers are still running after HandleRegUpdates returned", map[string]interface{}{"workers": len(left)})
+					}
+				}
+				ln.Close()
+				heldMu.Lock()
+				for _, c := range held {
+					c.Close()
+				}
+				heldMu.Unlock()
+				rec.Count("evaluations", 1)
+				rec.Count("registrations_validated_with_sharing_on", validated)
+				rec.Count("share_requests_reaching_the_peer", int(accepted.Load()))
+				rec.Distinct("nontrivial", peer, workers, rep)
+				if rec.WantSample() {
+					rec.Sample(map[string]interface{}{"case": label, "validated": validated, "share_requests_seen_by_peer": accepted.Load(), "returned_after_stop": ok})
+				}
 			}
 		}
 	}
